@@ -790,3 +790,125 @@ def c10(ctx):
     ctx.cov["rule"] = ("one evaluation = one complete GMW run (2..5 parties, random start delays) on a compiled circuit; non-trivial = 3 or "
                        "more parties; every AND batch of every run is checked in full (all 64-bit words) by the harness")
     ctx.check_drift()
+
+
+# ---------------------------------------------------------------------- C06
+OTEXT_CFG = """SPECIFICATION %s
+CONSTANTS
+  K = 2
+  RPB = 2
+  BPW = 2
+  ChunkRows = 8
+  MaxN = %d
+  MaxBatches = %d
+  BitsTailApplied = %s
+  SendBitsAllCols = %s
+  ClearChoiceBuf = %s
+%s
+CHECK_DEADLOCK FALSE
+"""
+OT_SIZES = "{1, 7, 8, 9, 63, 64, 65, 127, 128, 129, 130, 200, 511, 512, 513, 1000, 1023, 1024, 1025, 1536, 2049}"
+
+
+@prop("C06")
+def c06(ctx):
+    thorough = ctx.tier == "thorough"
+    ctx.build()
+    ctx.assumptions += ["the PRG streams of the model are fixed arbitrary bit patterns (the correlation is an identity in the streams)",
+                        "base OT randomness is honest; the scaled constants (K=2, 2 rows/byte, 2 bytes/word, 8 rows/chunk) keep the ratios of the real ones"]
+    # (M) all batch sizes x all choice vectors x Delta, single batches and sequences of two on one instance
+    ctx.tlc_expect_ok("OTExt", "OTExt_mc.cfg", name="otext-1", timeout=3000,
+                      cfg_text=OTEXT_CFG % ("Spec", 12 if thorough else 10, 1, "TRUE", "TRUE", "TRUE", "INVARIANT Safety"))
+    ctx.tlc_expect_ok("OTExt", "OTExt_mc.cfg", name="otext-2", timeout=3000,
+                      cfg_text=OTEXT_CFG % ("Spec", 6 if thorough else 5, 2, "TRUE", "TRUE", "TRUE", "INVARIANT Safety"))
+    guards = {}
+    for nm, a, b, c, nb in (("bits-tail-ignored", "FALSE", "TRUE", "TRUE", 1), ("sendbits-column0-only", "TRUE", "FALSE", "TRUE", 2),
+                            ("stale-choice-bytes", "TRUE", "TRUE", "FALSE", 1)):
+        r = ctx.tlc("OTExt", "OTExt_mc.cfg", name="otext-guard-" + nm, cfg_text=OTEXT_CFG % ("Spec", 10 if nb == 1 else 4, nb, a, b, c, "INVARIANT Safety"))
+        guards[nm] = r["status"]
+        if r["status"] != "invariant":
+            raise Broken("OTExt.tla does not reject the deviation %s (%s)" % (nm, r["status"]))
+    ctx.cov["spec_rejects_deviations"] = guards
+    # (G) batch sequences with predicted chunk sizes, run on one real IKNP pair each
+    gen = "CONSTANTS\n  GenSizes = %s\n  GenModes = {\"labels\", \"bits\", \"labelsm\"}\n  GenLen = %d\nCONSTRAINT Emit"
+    g1 = ctx.tlc("OTExtGen", "OTExt_gen.cfg", mode="gen", workers=1, name="otext-gen1",
+                 cfg_text=OTEXT_CFG % ("GenSpec", 1, 1, "TRUE", "TRUE", "TRUE", gen % (OT_SIZES, 1)))
+    g2 = ctx.tlc("OTExtGen", "OTExt_gen.cfg", mode="sim", workers=1, name="otext-gen2", sim="num=%d" % (600 if thorough else 60), depth=4,
+                 cfg_text=OTEXT_CFG % ("GenSpec", 1, 1, "TRUE", "TRUE", "TRUE", gen % (OT_SIZES, 3)))
+    if g1["status"] != "ok" or not g1["cases"]:
+        raise Broken("OTExtGen failed: %s\n%s" % (g1["status"], g1["out"][-2000:]))
+    multi = [c for c in g2["cases"] if len(c["batches"]) >= 2]
+    seen, uniq = set(), []
+    for c in g1["cases"] + multi:
+        k = json.dumps(c, sort_keys=True)
+        if k not in seen:
+            seen.add(k)
+            uniq.append(c)
+    if not thorough:
+        uniq = uniq[:63] + sample_cases(uniq[63:], 40, ctx.seed)
+    cases = os.path.join(ctx.tmp, "c06cases.ndjson")
+    write_ndjson(cases, uniq)
+    res = os.path.join(ctx.tmp, "c06res.ndjson")
+    ctx.run_vh(["c06", "run", cases, res], timeout=3400)
+    n = ctx.absorb(res)
+    ctx.cov["traces_validated_against_impl"] += len(uniq)
+    ctx.cov["rule"] = ("one evaluation = one initialised OT instance running 1-3 batches (sizes around 8/64/128/512/1024 boundaries, label / "
+                       "packed-bit / malicious-checked form, six choice patterns, Delta bit 0 forced to 0 and 1) with every index checked, or one "
+                       "run of RSA/CO/COT/ROT through the ot.OT interface; non-trivial = several batches or more than one chunk")
+    ctx.check_drift()
+
+
+# ---------------------------------------------------------------------- C15
+KOS_CFG = """SPECIFICATION Spec
+CONSTANTS
+  KB = 3
+  Rows = %d
+  PadRows = 1
+  CheckBothHalves = %s
+INVARIANT Safety
+CHECK_DEADLOCK FALSE
+"""
+
+
+@prop("C15")
+def c15(ctx):
+    thorough = ctx.tier == "thorough"
+    ctx.build()
+    ctx.assumptions += ["a challenge coefficient chi_row = 0 has probability 2^-128 on the real code and is excluded",
+                        "the PRG streams stay in lock step after an abort (the sender reads all chunks before checking), "
+                        "so one initialised pair is reused for many tampered batches"]
+    ctx.tlc_expect_ok("Kos", "Kos_mc.cfg", name="kos-mc", timeout=3000, cfg_text=KOS_CFG % (3 if thorough else 2, "TRUE"))
+    r = ctx.tlc("Kos", "Kos_mc.cfg", name="kos-guard", cfg_text=KOS_CFG % (2, "FALSE"))
+    if r["status"] != "invariant":
+        raise Broken("Kos.tla does not reject a check that compares only one half")
+    ctx.cov["spec_rejects_deviations"] = ["check-one-half-only"]
+    res = os.path.join(ctx.tmp, "c15res.ndjson")
+    trace = os.path.join(ctx.tmp, "kos_trace.ndjson")
+    ctx.run_vh(["c15", "run", res, trace, 100 if thorough else 2], timeout=3400)
+    n = ctx.absorb(res)
+    t = ctx.tlc("KosTrace", "KosTrace.cfg", mode="trace", files=[trace], timeout=3000)
+    if t["status"] == "invariant" and t.get("which") in ("HonestAccepts", "Sound", "NoSilentAccept"):
+        ctx.violation("trace:" + t["which"], "a real execution violates KosTrace.%s" % t["which"], t["out"][-2000:])
+    elif t["status"] == "invariant":
+        ctx.drift.append("KosTrace.%s fails (an unselected or unused flip makes the sender abort)" % t.get("which"))
+    elif t["status"] != "ok":
+        raise Broken("KosTrace failed: %s\n%s" % (t["status"], t["out"][-3000:]))
+    else:
+        ctx.cov["traces_validated_against_impl"] += n
+    rows = read_ndjson(trace)
+    r2 = [dict(x) for x in rows]
+    i = next((i for i, x in enumerate(r2) if x["where"] == "payload" and x["deltacol"] == 1 and x["used"] == 1), None)
+    if i is not None:
+        r2[i]["accepted"] = 1
+        p2 = os.path.join(ctx.tmp, "selftest", "kos_trace.ndjson")
+        os.makedirs(os.path.dirname(p2), exist_ok=True)
+        write_ndjson(p2, r2)
+        x = ctx.tlc("KosTrace", "KosTrace.cfg", mode="trace", files=[p2], name="kos-selftest")
+        if x["status"] != "invariant":
+            raise Broken("binding self-test: KosTrace accepted a silently accepted flip")
+        ctx.cov["binding_selftest"] = {"silent-accept": x["status"]}
+    ctx.cov["exhaustive"] = bool(thorough)
+    ctx.cov["rule"] = ("one evaluation = one malicious-mode batch (n in 1, 8, 9, 129) with one flipped bit (column,row) of the payload or of the "
+                       "256-row check matrix, or one flipped bit of the challenge response, or an honest batch (n up to 2049); the thorough "
+                       "tier visits every (column,row); all tampered runs are non-trivial")
+    ctx.check_drift()
